@@ -894,6 +894,190 @@ fn stream_zone(a: &snel_harness::out::Args) {
     s.finish();
 }
 
+// ---- segment path: the real TemporalIndexBuilder on zone plans, then the real TemporalPruner
+
+/// One value for a time field as a client would send it, and the instant it denotes.
+/// Spellings: date-only string (midnight), RFC 3339 with an offset, epoch seconds number,
+/// epoch milliseconds number, numeric string. `t` must lie in the unambiguous band.
+fn store_spelling(r: &mut Rng, t: i64, s: &mut Stream) -> Value {
+    let midnight = t.rem_euclid(86400) == 0;
+    match r.below(if midnight { 6 } else { 5 }) {
+        0 | 1 => {
+            let off = gen_offset_minutes(r);
+            let l = t + off * 60;
+            let (y, m, d) = civil_from_days(l.div_euclid(86400));
+            let sod = l.rem_euclid(86400);
+            let a = off.abs();
+            s.tally("seg-store:rfc3339");
+            json!(format!("{y:04}-{m:02}-{d:02}T{:02}:{:02}:{:02}{}{:02}:{:02}", sod / 3600, sod / 60 % 60, sod % 60, if off < 0 { '-' } else { '+' }, a / 60, a % 60))
+        }
+        2 => { s.tally("seg-store:epoch-seconds"); json!(t) }
+        3 => { s.tally("seg-store:epoch-millis"); json!(t * 1000 + r.range(0, 999)) }
+        4 => { s.tally("seg-store:numeric-string"); json!(t.to_string()) }
+        _ => {
+            let (y, m, d) = civil_from_days(t.div_euclid(86400));
+            s.tally("seg-store:date-only");
+            json!(format!("{y:04}-{m:02}-{d:02}"))
+        }
+    }
+}
+
+fn stream_seg(a: &snel_harness::out::Args) {
+    use snel_db::engine::core::event::event_builder::EventBuilder;
+    use snel_db::engine::core::time::temporal_builder::TemporalIndexBuilder;
+    use snel_db::engine::core::zone::zone_plan::ZonePlan;
+    let mut s = Stream::create(&a.out, "seg");
+    let rt = tokio::runtime::Builder::new_current_thread().build().unwrap();
+    let base = a.out.join("seg-segs");
+    let _ = std::fs::remove_dir_all(&base);
+    std::fs::create_dir_all(&base).unwrap();
+    let mut reg = SchemaRegistry::new_with_path(base.join("schemas.bin")).unwrap();
+    let schema = MiniSchema { fields: HashMap::from([
+        ("d".to_string(), FieldType::Date), ("od".to_string(), FieldType::Optional(Box::new(FieldType::Date))),
+        ("f".to_string(), FieldType::Timestamp), ("of".to_string(), FieldType::Optional(Box::new(FieldType::Timestamp))),
+        ("k".to_string(), FieldType::I64),
+    ]) };
+    reg.define("ev", schema.clone()).unwrap();
+    let uid = reg.get_uid("ev").unwrap();
+    let reg = Arc::new(tokio::sync::RwLock::new(reg));
+    let normalizer_schema = schema.clone();
+    for i in 0..a.cases {
+        if a.only.is_some_and(|o| o != i) { continue; }
+        let mut r = Rng::for_case(a.seed, "seg", i);
+        let column = *r.pick(&["d", "d", "od", "f", "of", "timestamp"]);
+        let is_date = column == "d" || column == "od";
+        s.tally(&format!("column:{column}"));
+        // a base day inside the unambiguous unit band and below the calendar's u32 horizon (mostly)
+        let base_day: i64 = match r.below(12) {
+            0 => r.range(49_600, 49_720),              // around 2^32 s (2106): calendar truncation
+            1 if column != "timestamp" => -r.range(1, 20_000), // before 1970
+            _ => r.range(1_200, 49_000),               // 1973 .. 2104
+        };
+        let nz = 1 + r.below(3) as usize;
+        let mut zones: Vec<(u32, Vec<i64>)> = vec![];
+        let mut plans: Vec<ZonePlan> = vec![];
+        let mut row = 0usize;
+        let mut store_bad: Option<String> = None;
+        for z in 0..nz {
+            let n = match r.below(8) { 0 => 1, _ => 2 + r.below(4) } as usize;
+            let day0 = base_day + (z as i64) * r.range(0, 3);
+            let mut vals: Vec<i64> = vec![];
+            let mut events = vec![];
+            for k in 0..n {
+                // instants: midnights (date-only style) mixed with times of day
+                let day = day0 + r.range(0, 2);
+                let tod = match r.below(5) { 0 | 1 => 0, 2 => *r.pick(&[1i64, 3600, 36000, 43200, 86399]), _ => r.range(0, 86399) };
+                let t = day * 86400 + tod;
+                let mut b = EventBuilder::new();
+                b.event_type = "ev".into();
+                b.context_id = format!("c{k}");
+                b.payload.insert("k".into(), ScalarValue::Int64((row + k) as i64));
+                if column == "timestamp" {
+                    b.timestamp = t.max(0) as u64;
+                    vals.push(t.max(0));
+                } else {
+                    b.timestamp = 1_700_000_000 + (row + k) as u64;
+                    let absent = (column == "od" || column == "of") && r.chance(1, 6);
+                    if !absent {
+                        // through the real STORE-side normaliser, in a spelling of the instant
+                        let in_band = (100_000_000..10_000_000_000i64).contains(&t);
+                        let v = if in_band { store_spelling(&mut r, t, &mut s) } else {
+                            s.tally("seg-store:rfc3339-utc(out-of-unit-band)");
+                            let (y, m, d) = civil_from_days(t.div_euclid(86400));
+                            let sod = t.rem_euclid(86400);
+                            json!(format!("{y:04}-{m:02}-{d:02}T{:02}:{:02}:{:02}Z", sod / 3600, sod / 60 % 60, sod % 60))
+                        };
+                        let mut payload = json!({ column: v.clone(), "k": 1 });
+                        match PayloadTimeNormalizer::new(&normalizer_schema).normalize(&mut payload) {
+                            Ok(()) if payload[column].as_i64() == Some(t) => {}
+                            other => store_bad = Some(format!("STORE of {v} into `{column}` for instant {t}: {other:?} -> {}", payload[column])),
+                        }
+                        b.payload.insert(column.to_string(), ScalarValue::Int64(payload[column].as_i64().unwrap_or(t)));
+                        vals.push(payload[column].as_i64().unwrap_or(t));
+                    }
+                }
+                events.push(b.build());
+            }
+            plans.push(ZonePlan { id: z as u32, start_index: row, end_index: row + n - 1, events, uid: uid.clone(), event_type: "ev".into(), segment_id: 1, created_at: 0 });
+            row += n;
+            zones.push((z as u32, vals));
+        }
+        let seg = "00001";
+        let case_base = base.join(format!("c{i}"));
+        let segdir = case_base.join(seg);
+        std::fs::create_dir_all(&segdir).unwrap();
+        rt.block_on(TemporalIndexBuilder::new(&uid, &segdir, Arc::clone(&reg)).build_for_zone_plans(&plans)).expect("temporal build");
+        // probes
+        let all_vals: Vec<i64> = zones.iter().flat_map(|(_, v)| v.iter().copied()).collect();
+        let np = 2 + r.below(5);
+        let mut probes: Vec<(&str, CompareOp, Value, Option<i64>)> = vec![];
+        for _ in 0..np {
+            let (opname, op) = if r.chance(1, 2) { ("eq", CompareOp::Eq) } else { r.pick(&OPS).clone() };
+            let target = if !all_vals.is_empty() && r.chance(4, 5) { *r.pick(&all_vals) + match r.below(8) { 0 => 1, 1 => -1, 2 => 86400, 3 => -86400, _ => 0 } } else { base_day * 86400 + r.range(-200_000, 200_000) };
+            let in_band = (100_000_000..10_000_000_000i64).contains(&target);
+            // literal spellings: ISO with offset, date-only when midnight, epoch seconds, numeric string
+            let (lit, denotes): (Value, Option<i64>) = if in_band && r.chance(3, 4) {
+                let v = loop { let v = store_spelling(&mut r, target, &mut s); if !(v.is_number() && v.as_i64() != Some(target)) { break v; } };
+                (v, Some(target))
+            } else if (MIN_0000..=MAX_9999).contains(&target) && r.chance(1, 2) {
+                let (y, m, d) = civil_from_days(target.div_euclid(86400));
+                let sod = target.rem_euclid(86400);
+                (json!(format!("{y:04}-{m:02}-{d:02}T{:02}:{:02}:{:02}Z", sod / 3600, sod / 60 % 60, sod % 60)), Some(target))
+            } else {
+                (json!(target), Some(target))
+            };
+            probes.push((opname, op, lit, denotes));
+        }
+        let pruner = TemporalPruner { artifacts: ZoneArtifacts::new(&case_base, None) };
+        let mut outs: Vec<String> = vec![];
+        let mut any_kept = false;
+        for (opname, op, lit, denotes) in &probes {
+            let sv = ScalarValue::from(lit.clone());
+            let args = PruneArgs { segment_id: seg, uid: &uid, column, value: Some(&sv), op: Some(op) };
+            let got: Option<Vec<u32>> = pruner.apply_temporal_only(&args).map(|v| { let mut z: Vec<u32> = v.iter().map(|c| c.zone_id).collect(); z.sort(); z });
+            outs.push(match &got { None => "unhandled".into(), Some(z) if z.is_empty() => "-".into(), Some(z) => { any_kept = true; z.iter().map(|x| x.to_string()).collect::<Vec<_>>().join(",") } });
+            s.tally(&format!("seg-op:{opname}"));
+            // statistics the coordinator asked for
+            let lit_t = denotes.unwrap();
+            let holder = zones.iter().find(|(_, v)| v.contains(&lit_t));
+            if *opname == "eq" && is_date {
+                s.tally("eq-on-date-field-after-flush");
+                if let Some((_, v)) = holder {
+                    s.tally("eq-on-date-field-after-flush:literal-present-in-a-zone");
+                    if v.iter().any(|x| (x - lit_t).rem_euclid(86400) != 0) { s.tally("eq-on-date-field-after-flush:zone-has-non-day-aligned-distances"); }
+                    if (lit_t - v.iter().min().unwrap()).rem_euclid(86400) != 0 { s.tally("eq-on-date-field-after-flush:literal-not-day-aligned-to-zone-min"); }
+                }
+            }
+            if *opname == "eq" && !is_date && holder.is_some() { s.tally("eq-on-datetime-or-timestamp:literal-present-in-a-zone"); }
+            // oracle: every zone holding a row that satisfies `row op literal` is returned
+            if *opname != "neq" {
+                let got = got.clone().unwrap_or_default();
+                let mut lost: Vec<(u32, &'static str)> = vec![];
+                for (zid, v) in &zones {
+                    let m = v.iter().any(|x| match *opname { "eq" => *x == lit_t, "gt" => *x > lit_t, "gte" => *x >= lit_t, "lt" => *x < lit_t, "lte" => *x <= lit_t, _ => false });
+                    if m && !got.contains(zid) {
+                        let (mn, mx) = (*v.iter().min().unwrap(), *v.iter().max().unwrap());
+                        let class = if lit_t < 0 { "pruner-negative-literal" } else if mn < 0 { "pruner-negative-zone" }
+                            else if lit_t.max(mx) >= 4_294_969_200 || all_vals.iter().any(|x| *x >= 4_294_969_200) { "calendar-u32-truncation" } else { "-" };
+                        lost.push((*zid, class));
+                    }
+                }
+                if lost.is_empty() { s.oracle_ok(); } else {
+                    let class = if lost.iter().any(|(_, c)| *c == "-") { "-" } else { lost[0].1 };
+                    s.tally(&format!("oracle-fail:{class}"));
+                    s.oracle_fail(i, class, &format!("segment zones {zones:?} of field `{column}`: `{column} {opname} {lit}` (instant {lit_t}) lost zone(s) {:?}; pruner returned {got:?}", lost.iter().map(|(z, _)| *z).collect::<Vec<_>>()));
+                }
+            }
+        }
+        if let Some(e) = store_bad { s.oracle_fail(i, "-", &e); }
+        let _ = std::fs::remove_dir_all(&case_base);
+        let zs = zones.iter().map(|(z, v)| format!("{z} {}{}", v.len(), v.iter().map(|x| format!(" {x}")).collect::<String>())).collect::<Vec<_>>().join(" ");
+        let ps = probes.iter().map(|(o, _, l, _)| format!("{o} {}", jv_token(l))).collect::<Vec<_>>().join(" ");
+        s.case(&format!("seg {} {} {zs} {} {ps}", if column == "timestamp" { "ts" } else { "field" }, zones.len(), probes.len()), &outs.join(" "), any_kept);
+    }
+    s.finish();
+}
+
 /// The instant a WHERE/SINCE literal denotes according to the property text: ISO strings and
 /// numeric strings as on the STORE side; JSON integers are epoch seconds. `None` when the
 /// property does not fix a meaning (floats, or integers the heuristic misreads — those are
@@ -917,6 +1101,7 @@ fn main() {
         "sites" => stream_sites(&a),
         "since" => stream_since(&a),
         "zone" => stream_zone(&a),
+        "seg" => stream_seg(&a),
         other => {
             eprintln!("unknown stream {other}");
             std::process::exit(2);
